@@ -31,10 +31,10 @@ fn read_progs(path: &str) -> Vec<Prog> {
 }
 
 pub fn normalize(mut p: Prog) -> Prog {
-    while p.tls_touch.len() < 2 {
+    while p.tls_touch.len() < 3 {
         p.tls_touch.push(-1);
     }
-    while p.tls_yield.len() < 2 {
+    while p.tls_yield.len() < 3 {
         p.tls_yield.push(0);
     }
     p
@@ -262,6 +262,17 @@ fn cmd_one(args: &[String]) {
     if arg(args, "--mode") == Some("pct") {
         let iters: usize = arg(args, "--iters").unwrap_or("50").parse().unwrap();
         let seed: u64 = arg(args, "--seed").unwrap_or("1").parse().unwrap();
+        if let Some(n) = arg(args, "--positions") {
+            let n: usize = n.parse().unwrap();
+            let mut m = pct::pct_positions(p, 3, n, seed.wrapping_mul(97).wrapping_add(p.id as u64));
+            write_trie(&Trie::new(), &format!("{out}/p{idx}.trie"));
+            m["capped"] = json!(false);
+            m["nondet"] = Value::Null;
+            m["outcomes"] = json!([]);
+            m["posrun"] = json!(true);
+            std::fs::write(format!("{out}/p{idx}.meta"), m.to_string()).unwrap();
+            return;
+        }
         if let Some(b) = arg(args, "--bugs") {
             // bug specs: {program id: {"bug":[[code,pc,r],...],"depth":d}}
             let all: Value = serde_json::from_str(&std::fs::read_to_string(b).unwrap()).unwrap();
@@ -366,7 +377,7 @@ fn cmd_enum(args: &[String]) {
                     c.arg(flag);
                 }
             }
-            for opt in ["--mode", "--iters", "--seed", "--bugs", "--pb"] {
+            for opt in ["--mode", "--iters", "--seed", "--bugs", "--pb", "--positions"] {
                 if let Some(v) = arg(args, opt) {
                     c.arg(opt).arg(v);
                 }
